@@ -610,6 +610,37 @@ def r14_filter_entries_weights_orderings(idx, r):
         raise AnchorMissing("a by-component collection whose consumer pairs with sorted(repBlock)")
 
 
+def r18_both_sides_and_one_order(idx, r):
+    """(a) the component-consistency guards of the by-component collections compare a member component with the component of the
+    REPRESENTATIVE at the same position: the two nuclide sets that are compared come one from each (a set compared with itself accepts
+    every mirrored or mismatched member).  (b) calcAvgNuclideTemperatures reads the two sums of _getNucTempHelper by position: it walks
+    `self.allNuclidesInProblem` in the very order the helper filled them - not a sorted copy."""
+    n = 0
+    for c in idx.subclasses(idx.cls(M + ".BlockCollection")):
+        f = c.methods.get("_checkComponentConsistency")
+        if f is None:
+            continue
+        sets_ = {s_.node.id: s_.value for s_ in iter_stores(f.node) if s_.kind == "assign" and isinstance(s_.node, ast.Name) and s_.value is not None and "getNuclides()" in norm(s_.value)}
+        pairs = [(a_, b_) for a_ in sets_ for b_ in sets_ if a_ < b_ and any(isinstance(x, ast.Compare) and {a_, b_} <= {y.id for y in ast.walk(x) if isinstance(y, ast.Name)} for x in walk_local(f.node))]
+        for a_, b_ in pairs:
+            n += 1
+            r.require(norm(sets_[a_]) != norm(sets_[b_]), f"{c.name}._checkComponentConsistency:{a_}-vs-{b_}:two-different-components", f,
+                      msg=f"`{a_}` and `{b_}` are both `{norm(sets_[a_])[:50]}`: the guard compares a component with itself and can never refuse a member")
+    if n < 1:
+        raise AnchorMissing("_checkComponentConsistency: compared nuclide sets")
+    # (c) which XS group a block joins is its (xsType, envGroup) label pair; the environment-group number <-> letter setters of the block
+    # parameters are mutually inverse over all 52 groups (rule R04.8, the clause on envGroup)
+    from ..report import Only
+    from .c04 import r8_linked_setters
+    r8_linked_setters(idx, Only(r, ["envGroup"]))
+    g = idx.method(M + ".BlockCollection", "calcAvgNuclideTemperatures")
+    loops = [x for x in walk_local(g.node) if isinstance(x, ast.For) and "allNuclidesInProblem" in norm(x.iter)]
+    if len(loops) != 1:
+        raise AnchorMissing("calcAvgNuclideTemperatures: loop over the nuclides")
+    r.require(norm(loops[0].iter) in ("enumerate(self.allNuclidesInProblem)", "self.allNuclidesInProblem"), "calcAvgNuclideTemperatures:same-order-as-the-helper", g, node=loops[0],
+              msg=f"the sums are read in the order of `{norm(loops[0].iter)}` while _getNucTempHelper fills them in the order of self.allNuclidesInProblem: unless that list is sorted already, temperatures are attributed to the wrong nuclides")
+
+
 def r15_pairing(idx, r):
     from ..pairing import pairing_rule
     pairing_rule(idx, r, ["armi.physics.neutronics.crossSectionGroupManager", "armi.physics.neutronics.crossSectionSettings"], 60)
@@ -653,3 +684,5 @@ def run(idx, chk):
                  necessary="the representative is built from the group's eligible members with the right weights, component by component")
     chk.run_rule("R20.15", "arguments stand at the parameter they are named after; sibling calls forward the same pass-through parameters", lambda r: r15_pairing(idx, r), floor=1,
                  necessary="type label and environment group are not exchanged")
+    chk.run_rule("R20.16", "consistency guards compare a member with the representative; temperatures are read in the order they were accumulated", lambda r: r18_both_sides_and_one_order(idx, r), floor=2,
+                 necessary="each averaged quantity is the weight-normalised mean of the matching member values")
